@@ -29,8 +29,10 @@ func init() {
 				"(flush-before-length, reset-after-write) the header block length is taken after the compressor was flushed and the shared header buffer is reset on every success path; " +
 				"(validate-before-write) no frame-validation error is returned after part of the frame was already written; " +
 				"(shift-agree, mask-agree, control-bit) bit-packing constants of writer and reader agree; " +
-				"(payload-size-check, uncork-sets-n) after parsing a compressed header block every success return depends on headerReader.N == 0 and uncorkHeaderDecompressor arms the limit with its argument on every path. " +
+				"(payload-size-check, uncork-sets-n) after parsing a compressed header block every success return and every return that hands the parse error on (it may be a stream-level *Error, after which the connection continues) depends on headerReader.N == 0 or header compression being disabled - on every phi edge / helper return through which the parse result flows - and uncorkHeaderDecompressor arms the limit with its argument on every path. " +
 				"(block-consumed) the header blocks of all frames of a connection pass through one zlib decompressor, so parseHeaderValueBlock may leave the loop over the announced pairs early (return or break inside the loop, return before it) only with an error that aborts the connection's header context - the block reader's own error, an untyped error, a typed *Error without stream id; success and the stream-level *Error{code, streamId} are returned only through the loop's own exhaustion exit, i.e. after the whole block was consumed (known finding: the two InvalidHeaderPresent returns added by the header-validation fix sit inside the loop). " +
+				"Spelling independence: branch conditions are read through negation, named booleans, `a && b` / `a || b` assigned to a variable and the cases of a tagless switch (a boolean phi implies a fact when every feasible edge does); the payload-size test may live in a private predicate or error-mapping helper of the Framer (its returns are examined in its own frame); a read-and-check sequence of parseHeaderValueBlock extracted into a helper that is handed the block reader is classified return by return in the helper's frame; a wire-sized make inside a private helper counts once per static call site; bit-packing constants and the header-buffer Reset are searched in the region (function + private helpers, all paths) rather than in one body. " +
+				"Not decided, reported as a violation when met (the rule cannot follow the form): a wire integer decoded in one function and bounded or used as a make size in another (decode helpers returning the raw value; the anti-vacuity floor of alloc-bound fires), the frame-length subtraction, the fixed-length test or the parseHeaderValueBlock call moved into a helper shared by several frame readers, a header-block writer whose length store and payload write are in different functions. " +
 				"Not covered: equality of header bytes through the shared zlib context (only that each block is consumed to its end before a recoverable result is reported), mid-frame error returns of the fixed-size control frame readers on the raw connection (GOAWAY/WINDOW_UPDATE flag checks), that the loop bound is the announced pair count, header name/value validation (C25), full panic freedom (index arithmetic), blocking behaviour of the underlying reader.",
 			RuleText:    "obligations = each wire-sized make, each length subtraction, each success return of a fixed-size frame reader, each control frame type (length agreement), each length prefix, each header-block writer (flush, reset), each validation error return of a writer, each writer/reader bit-layout pair, each header-block reader (payload size test), each return of parseHeaderValueBlock that does not pass the exhaustion exit of the pair loop (error class)",
 			Assumptions: []string{"encoding/binary.Read/Write transfer exactly the size of their fixed-size operand", "io.LimitedReader enforces N"},
@@ -63,6 +65,11 @@ func init() {
 			{Name: "silent-local-renamed-and-logging", File: "bfe_spdy/frame_read.go", Old: "	var length uint32\n	if err := binary.Read(f.r, binary.BigEndian, &length); err != nil {\n		return nil, err\n	}\n	var frame DataFrame\n	frame.StreamId = streamId\n	frame.Flags = DataFlags(length >> 24)\n	length &= 0xffffff\n	frame.Data = make([]byte, length)", New: "	var word uint32\n	if err := binary.Read(f.r, binary.BigEndian, &word); err != nil {\n		return nil, err\n	}\n	var frame DataFrame\n	frame.Flags = DataFlags(word >> 24)\n	frame.StreamId = streamId\n	word = word & 0xffffff\n	_ = fmt.Sprintf(\"data frame of %d bytes\", word)\n	frame.Data = make([]byte, word)", Silent: true},
 			{Name: "silent-receiver-renamed", File: "bfe_spdy/frame_write.go", Old: "func (f *Framer) writeHeadersFrame(frame *HeadersFrame) (err error) {\n	if frame.StreamId == 0 {\n		return &Error{ZeroStreamId, 0}\n	}\n	// Marshal the headers.\n	var writer io.Writer = f.headerBuf\n	if !f.headerCompressionDisabled {\n		writer = f.headerCompressor\n	}\n	if _, err = writeHeaderValueBlock(writer, frame.Headers); err != nil {\n		return\n	}\n	if !f.headerCompressionDisabled {\n		f.headerCompressor.Flush()\n	}\n\n	// Set ControlFrameHeader.\n	frame.CFHeader.version = Version\n	frame.CFHeader.frameType = TypeHeaders\n	frame.CFHeader.length = uint32(len(f.headerBuf.Bytes()) + 4)\n\n	// Serialize frame to Writer.\n	if err = writeControlFrameHeader(f.w, frame.CFHeader); err != nil {\n		return\n	}\n	if err = binary.Write(f.w, binary.BigEndian, frame.StreamId); err != nil {\n		return\n	}\n	if _, err = f.w.Write(f.headerBuf.Bytes()); err != nil {\n		return\n	}\n	f.headerBuf.Reset()\n	return\n}", New: "func (fr *Framer) writeHeadersFrame(hf *HeadersFrame) (err error) {\n	if hf.StreamId == 0 {\n		return &Error{ZeroStreamId, 0}\n	}\n	var writer io.Writer = fr.headerBuf\n	if !fr.headerCompressionDisabled {\n		writer = fr.headerCompressor\n	}\n	if _, err = writeHeaderValueBlock(writer, hf.Headers); err != nil {\n		return\n	}\n	if !fr.headerCompressionDisabled {\n		fr.headerCompressor.Flush()\n	}\n	hf.CFHeader.frameType = TypeHeaders\n	hf.CFHeader.version = Version\n	hf.CFHeader.length = uint32(4 + len(fr.headerBuf.Bytes()))\n	if err = writeControlFrameHeader(fr.w, hf.CFHeader); err != nil {\n		return\n	}\n	if err = binary.Write(fr.w, binary.BigEndian, hf.StreamId); err != nil {\n		return\n	}\n	if _, err = fr.w.Write(fr.headerBuf.Bytes()); err != nil {\n		return\n	}\n	fr.headerBuf.Reset()\n	return\n}", Silent: true},
 			{Name: "silent-goaway-check-on-parameter", File: "bfe_spdy/frame_read.go", Old: "	if frame.CFHeader.length != 8 {\n		return &Error{InvalidControlFrame, frame.LastGoodStreamId}\n	}\n", New: "	if h.length != 8 {\n		return &Error{InvalidControlFrame, frame.LastGoodStreamId}\n	}\n", Silent: true},
+			{Name: "silent-data-frame-validation-as-switch", File: "bfe_spdy/frame_write.go", Old: "\tif frame.StreamId&0x80000000 != 0 || len(frame.Data) > MaxDataLength {\n\t\treturn &Error{InvalidDataFrame, frame.StreamId}\n\t}\n", New: "\tswitch {\n\tcase frame.StreamId&0x80000000 != 0 || len(frame.Data) > MaxDataLength:\n\t\treturn &Error{InvalidDataFrame, frame.StreamId}\n\t}\n", Silent: true},
+			{Name: "silent-field-read-extracted-into-helper", File: "bfe_spdy/frame_read.go", Old: "func parseHeaderValueBlock(r io.Reader, streamId StreamId) (http.Header, uint32, error) {\n\theaderLen := uint32(0) // length of header decompressed\n\n\tvar numHeaders uint32\n\tif err := binary.Read(r, binary.BigEndian, &numHeaders); err != nil {\n\t\treturn nil, 0, err\n\t}\n\tif numHeaders > MaxNumHeaders {\n\t\treturn nil, 0, fmt.Errorf(\"HeaderValueBlock with invalid numHeaders: %d\", numHeaders)\n\t}\n\n\tvar e error\n\th := make(http.Header, int(numHeaders))\n\tfor i := 0; i < int(numHeaders); i++ {\n\t\tvar length uint32\n\t\tif err := binary.Read(r, binary.BigEndian, &length); err != nil {\n\t\t\treturn nil, 0, err\n\t\t}\n\t\tif length > MaxHeaderFieldLength {\n\t\t\treturn nil, 0, fmt.Errorf(\"HeaderValueBlock with invalid name length: %d\", length)\n\t\t}\n\t\theaderLen += length\n\t\tnameBytes := make([]byte, length)\n\t\tif _, err := io.ReadFull(r, nameBytes); err != nil {\n\t\t\treturn nil, 0, err\n\t\t}\n\t\tname := string(nameBytes)\n\t\tif name != strings.ToLower(name) {\n\t\t\te = &Error{UnlowercasedHeaderName, streamId}\n\t\t\tname = strings.ToLower(name)\n\t\t}\n\t\tif h[name] != nil {\n\t\t\te = &Error{DuplicateHeaders, streamId}\n\t\t}\n\t\tif err := binary.Read(r, binary.BigEndian, &length); err != nil {\n\t\t\treturn nil, 0, err\n\t\t}\n\t\tif length > MaxHeaderFieldLength {\n\t\t\treturn nil, 0, fmt.Errorf(\"HeaderValueBlock with invalid value length: %d\", length)\n\t\t}\n\t\theaderLen += length\n\t\tvalue := make([]byte, length)\n\t\tif _, err := io.ReadFull(r, value); err != nil {\n\t\t\treturn nil, 0, err\n\t\t}\n\t\t// an invalid header is recorded and skipped", New: "func readBoundedField(src io.Reader, what string) ([]byte, error) {\n\tvar size uint32\n\tif err := binary.Read(src, binary.BigEndian, &size); err != nil {\n\t\treturn nil, err\n\t}\n\tif size > MaxHeaderFieldLength {\n\t\treturn nil, fmt.Errorf(\"HeaderValueBlock with invalid %s length: %d\", what, size)\n\t}\n\tbuf := make([]byte, size)\n\t_, err := io.ReadFull(src, buf)\n\tif err != nil {\n\t\treturn nil, err\n\t}\n\treturn buf, nil\n}\n\nfunc parseHeaderValueBlock(r io.Reader, streamId StreamId) (http.Header, uint32, error) {\n\theaderLen := uint32(0) // length of header decompressed\n\n\tvar numHeaders uint32\n\tif err := binary.Read(r, binary.BigEndian, &numHeaders); err != nil {\n\t\treturn nil, 0, err\n\t}\n\tif numHeaders > MaxNumHeaders {\n\t\treturn nil, 0, fmt.Errorf(\"HeaderValueBlock with invalid numHeaders: %d\", numHeaders)\n\t}\n\n\tvar e error\n\th := make(http.Header, int(numHeaders))\n\tfor i := 0; i < int(numHeaders); i++ {\n\t\tnameBytes, err := readBoundedField(r, \"name\")\n\t\tif err != nil {\n\t\t\treturn nil, 0, err\n\t\t}\n\t\theaderLen += uint32(len(nameBytes))\n\t\tname := string(nameBytes)\n\t\tif name != strings.ToLower(name) {\n\t\t\te = &Error{UnlowercasedHeaderName, streamId}\n\t\t\tname = strings.ToLower(name)\n\t\t}\n\t\tif h[name] != nil {\n\t\t\te = &Error{DuplicateHeaders, streamId}\n\t\t}\n\t\tvalue, err := readBoundedField(r, \"value\")\n\t\tif err != nil {\n\t\t\treturn nil, 0, err\n\t\t}\n\t\theaderLen += uint32(len(value))\n\t\t// an invalid header is recorded and skipped", Silent: true},
+			{Name: "silent-payload-size-test-as-named-booleans", File: "bfe_spdy/frame_read.go", Old: "\tif !f.headerCompressionDisabled && (err == io.EOF && f.headerReader.N == 0 || f.headerReader.N != 0) {\n\t\terr = &Error{WrongCompressedPayloadSize, 0}\n\t}\n\tif err != nil {\n\t\treturn err\n\t}\n\tvar invalidHeaders", New: "\tleftover := f.headerReader.N != 0\n\ttruncated := err == io.EOF && !leftover\n\tbadSize := !f.headerCompressionDisabled && (truncated || leftover)\n\tif badSize {\n\t\terr = &Error{WrongCompressedPayloadSize, 0}\n\t}\n\tif err != nil {\n\t\treturn err\n\t}\n\tvar invalidHeaders", Silent: true},
+			{Name: "silent-payload-size-test-in-error-mapping-helper", File: "bfe_spdy/frame_read.go", Old: "func (f *Framer) readHeadersFrame(h ControlFrameHeader, frame *HeadersFrame) error {\n\tframe.CFHeader = h\n\tvar err error\n\tif err = binary.Read(f.r, binary.BigEndian, &frame.StreamId); err != nil {\n\t\treturn err\n\t}\n\tframe.StreamId = frame.StreamId & 0x7fffffff\n\tif h.length < 4 {\n\t\treturn &Error{InvalidControlFrame, frame.StreamId}\n\t}\n\treader := f.r\n\tif !f.headerCompressionDisabled {\n\t\terr := f.uncorkHeaderDecompressor(int64(h.length - 4))\n\t\tif err != nil {\n\t\t\treturn err\n\t\t}\n\t\treader = f.headerDecompressor\n\t}\n\tframe.Headers, _, err = parseHeaderValueBlock(reader, frame.StreamId)\n\tif !f.headerCompressionDisabled && (err == io.EOF && f.headerReader.N == 0 || f.headerReader.N != 0) {\n\t\terr = &Error{WrongCompressedPayloadSize, 0}\n\t}\n\tif err != nil {\n\t\treturn err\n\t}\n\tvar invalidHeaders map[string]bool", New: "// blockSizeError replaces the parse result by WrongCompressedPayloadSize when\n// the compressed block did not end exactly at the announced payload size.\nfunc (f *Framer) blockSizeError(parseErr error) error {\n\tif f.headerCompressionDisabled {\n\t\treturn parseErr\n\t}\n\tif f.headerReader.N != 0 || parseErr == io.EOF {\n\t\treturn &Error{WrongCompressedPayloadSize, 0}\n\t}\n\treturn parseErr\n}\n\nfunc (f *Framer) readHeadersFrame(h ControlFrameHeader, frame *HeadersFrame) error {\n\tframe.CFHeader = h\n\tvar err error\n\tif err = binary.Read(f.r, binary.BigEndian, &frame.StreamId); err != nil {\n\t\treturn err\n\t}\n\tframe.StreamId = frame.StreamId & 0x7fffffff\n\tif h.length < 4 {\n\t\treturn &Error{InvalidControlFrame, frame.StreamId}\n\t}\n\treader := f.r\n\tif !f.headerCompressionDisabled {\n\t\terr := f.uncorkHeaderDecompressor(int64(h.length - 4))\n\t\tif err != nil {\n\t\t\treturn err\n\t\t}\n\t\treader = f.headerDecompressor\n\t}\n\tframe.Headers, _, err = parseHeaderValueBlock(reader, frame.StreamId)\n\tif err = f.blockSizeError(err); err != nil {\n\t\treturn err\n\t}\n\tvar invalidHeaders map[string]bool", Silent: true},
+			{Name: "stream-error-returned-with-leftover-payload", File: "bfe_spdy/frame_read.go", Old: "func (f *Framer) readHeadersFrame(h ControlFrameHeader, frame *HeadersFrame) error {\n\tframe.CFHeader = h\n\tvar err error\n\tif err = binary.Read(f.r, binary.BigEndian, &frame.StreamId); err != nil {\n\t\treturn err\n\t}\n\tframe.StreamId = frame.StreamId & 0x7fffffff\n\tif h.length < 4 {\n\t\treturn &Error{InvalidControlFrame, frame.StreamId}\n\t}\n\treader := f.r\n\tif !f.headerCompressionDisabled {\n\t\terr := f.uncorkHeaderDecompressor(int64(h.length - 4))\n\t\tif err != nil {\n\t\t\treturn err\n\t\t}\n\t\treader = f.headerDecompressor\n\t}\n\tframe.Headers, _, err = parseHeaderValueBlock(reader, frame.StreamId)\n\tif !f.headerCompressionDisabled && (err == io.EOF && f.headerReader.N == 0 || f.headerReader.N != 0) {\n\t\terr = &Error{WrongCompressedPayloadSize, 0}\n\t}\n\tif err != nil {\n\t\treturn err\n\t}\n\tvar invalidHeaders map[string]bool", New: "// blockSizeError replaces the parse result by WrongCompressedPayloadSize when\n// the compressed block did not end exactly at the announced payload size.\nfunc (f *Framer) blockSizeError(parseErr error) error {\n\tif f.headerCompressionDisabled {\n\t\treturn parseErr\n\t}\n\tif parseErr == nil && f.headerReader.N != 0 || parseErr == io.EOF && f.headerReader.N == 0 {\n\t\treturn &Error{WrongCompressedPayloadSize, 0}\n\t}\n\treturn parseErr\n}\n\nfunc (f *Framer) readHeadersFrame(h ControlFrameHeader, frame *HeadersFrame) error {\n\tframe.CFHeader = h\n\tvar err error\n\tif err = binary.Read(f.r, binary.BigEndian, &frame.StreamId); err != nil {\n\t\treturn err\n\t}\n\tframe.StreamId = frame.StreamId & 0x7fffffff\n\tif h.length < 4 {\n\t\treturn &Error{InvalidControlFrame, frame.StreamId}\n\t}\n\treader := f.r\n\tif !f.headerCompressionDisabled {\n\t\terr := f.uncorkHeaderDecompressor(int64(h.length - 4))\n\t\tif err != nil {\n\t\t\treturn err\n\t\t}\n\t\treader = f.headerDecompressor\n\t}\n\tframe.Headers, _, err = parseHeaderValueBlock(reader, frame.StreamId)\n\tif err = f.blockSizeError(err); err != nil {\n\t\treturn err\n\t}\n\tvar invalidHeaders map[string]bool", Expect: "payload-size-check|Framer.readHeadersFrame:error-return"},
 		},
 	})
 }
@@ -182,8 +189,16 @@ func runC39(c *core.Ctx) {
 				continue
 			}
 			nMake++
-			c.Check("alloc-bound", fmt.Sprintf("%s:make#%d", spdyShort(fn), nMake), in.Pos(), len(bad) == 0,
-				"make() is sized by "+strings.Join(spdyUniq(bad), ", ")+", decoded from the wire by binary.Read, and on some path no mask or comparison against an upper bound <= 2^24 lies between the decode and the allocation: a peer chooses the allocation size (up to 4 GiB per field)")
+			// a private helper called from k sites stands for k copies of its body
+			// (two decode+allocate sequences merged into one helper keep their count)
+			for site := 1; site <= spdySiteWeight(c.P, fn); site++ {
+				key := fmt.Sprintf("%s:make#%d", spdyShort(fn), nMake)
+				if site > 1 {
+					key += fmt.Sprintf("@site%d", site)
+				}
+				c.Check("alloc-bound", key, in.Pos(), len(bad) == 0,
+					"make() is sized by "+strings.Join(spdyUniq(bad), ", ")+", decoded from the wire by binary.Read, and on some path no mask or comparison against an upper bound <= 2^24 lies between the decode and the allocation: a peer chooses the allocation size (up to 4 GiB per field)")
+			}
 		}
 	}
 	c.Min("alloc-bound", 5)
@@ -248,7 +263,7 @@ func runC39(c *core.Ctx) {
 			}
 			n++
 			got := ""
-			ok := core.HasGuard(r.Block(), func(g core.Guard) bool {
+			ok := spdyHasGuard(r.Block(), func(g core.Guard) bool {
 				cmp, ok := spdyNorm(g.Cond, g.Pol, isLength)
 				if !ok || cmp.Op != token.EQL {
 					return false
@@ -528,12 +543,19 @@ func runC39(c *core.Ctx) {
 					continue
 				}
 				n++
-				ok := false
-				for _, call := range core.Calls(fn, "bytes.Buffer.Reset") {
-					if strings.HasSuffix(core.Render(call.Common().Args[0]), ".headerBuf") && core.Dominates(payload, call.(ssa.Instruction)) && core.Dominates(call.(ssa.Instruction), r) {
-						ok = true
+				// every path from the payload write to this return resets the buffer
+				// (the Reset itself, or a helper that resets on all of its paths)
+				isReset := core.LiftMust(func(in ssa.Instruction) bool {
+					ci, isCall := in.(ssa.CallInstruction)
+					if !isCall || !core.CallIs(ci.Common(), "bytes.Buffer.Reset") {
+						return false
 					}
-				}
+					if _, isDefer := in.(*ssa.Defer); isDefer {
+						return false
+					}
+					return strings.HasSuffix(core.Render(ci.Common().Args[0]), ".headerBuf")
+				}, 2)
+				ok := core.ReachAvoiding(fn, payload, isReset, func(in ssa.Instruction) bool { return in == ssa.Instruction(r) }) == nil
 				c.Check("reset-after-write", fmt.Sprintf("%s:return#%d", short, n), r.Pos(), ok,
 					"a success return after the header block was written is not preceded by f.headerBuf.Reset(): the next control frame would carry this frame's header bytes again")
 			}
@@ -543,7 +565,7 @@ func runC39(c *core.Ctx) {
 	c.Min("reset-after-write", 3)
 
 	// ---- validate-before-write ---------------------------------------------
-	isWireWrite := func(in ssa.Instruction) bool {
+	isWireWrite0 := func(in ssa.Instruction) bool {
 		ci, ok := in.(ssa.CallInstruction)
 		if !ok {
 			return false
@@ -553,6 +575,19 @@ func runC39(c *core.Ctx) {
 			return true
 		}
 		return cc.IsInvoke() && cc.Method.Name() == "Write"
+	}
+	// a call of a bfe_spdy function that may write (a block of the writer
+	// extracted into a helper) is a write
+	isWireWrite := func(in ssa.Instruction) bool {
+		if isWireWrite0(in) {
+			return true
+		}
+		ci, ok := in.(ssa.CallInstruction)
+		if !ok {
+			return false
+		}
+		h := ci.Common().StaticCallee()
+		return h != nil && h.Blocks != nil && core.FuncPkgRel(h) == spdyPkg && core.MayPass(h, isWireWrite0, 1)
 	}
 	for _, fn := range fns {
 		if fn.Parent() != nil || fn.Signature.Recv() == nil {
@@ -594,9 +629,15 @@ func runC39(c *core.Ctx) {
 	c.Min("validate-before-write", 7)
 
 	// ---- shift-agree, mask-agree, control-bit --------------------------------
+	// bit packing may sit in a private helper of the writer / reader: look at the region
+	regionInstrs := func(fn *ssa.Function) []ssa.Instruction {
+		var out []ssa.Instruction
+		c.P.RegionInstrs(fn, func(in ssa.Instruction) { out = append(out, in) })
+		return out
+	}
 	shifts := func(fn *ssa.Function, op token.Token) []int64 {
 		var out []int64
-		for _, in := range allInstrs(fn) {
+		for _, in := range regionInstrs(fn) {
 			if b, ok := in.(*ssa.BinOp); ok && b.Op == op {
 				if k, ok := spdyConstInt(b.Y); ok {
 					out = append(out, k)
@@ -613,7 +654,7 @@ func runC39(c *core.Ctx) {
 		return u
 	}
 	hasConstOp := func(fn *ssa.Function, op token.Token, k int64) bool {
-		for _, in := range allInstrs(fn) {
+		for _, in := range regionInstrs(fn) {
 			if b, ok := in.(*ssa.BinOp); ok && b.Op == op {
 				for _, o := range []ssa.Value{b.X, b.Y} {
 					if v, ok := spdyConstInt(o); ok && v == k {
@@ -680,7 +721,7 @@ func runC39(c *core.Ctx) {
 				perr = ex
 			}
 		}
-		sizeOK := func(g core.Guard) bool {
+		sizeAtom := func(g core.Guard) bool {
 			if v, truth := spdyBoolCond(g.Cond, g.Pol); truth && strings.HasSuffix(core.Render(v), ".headerCompressionDisabled") {
 				return true
 			}
@@ -691,15 +732,71 @@ func runC39(c *core.Ctx) {
 			k, isK := spdyConstInt(cmp.Other)
 			return isK && k == 0
 		}
-		// derives: v is the parse error or a phi over it; checked: on every phi
-		// edge that carries the parse error the size test was passed.
+		// the size test may be spelled with named booleans (`wrong := compressed &&
+		// (short || left)`) or sit in a private predicate / error-mapping helper of
+		// the Framer: both subjects are field paths of the Framer
+		sizeOK := spdyLiftCalls(sizeAtom)
+		// mayBeParam: ev can be the parameter p of its function (directly or through phis)
+		var mayBeParam func(ev ssa.Value, p *ssa.Parameter, d int) bool
+		mayBeParam = func(ev ssa.Value, p *ssa.Parameter, d int) bool {
+			if ev == ssa.Value(p) {
+				return true
+			}
+			if u, ok := ev.(*ssa.UnOp); ok && u.Op == token.MUL {
+				if a, ok := u.X.(*ssa.Alloc); ok && core.SpilledParam(a) == p {
+					return true
+				}
+			}
+			if phi, ok := ev.(*ssa.Phi); ok && d < 4 {
+				for _, e := range phi.Edges {
+					if mayBeParam(e, p, d+1) {
+						return true
+					}
+				}
+			}
+			return false
+		}
+		// derives: v is the parse error, a phi over it, or the result of a private
+		// helper that may hand back an argument deriving from it; checked: on every
+		// phi edge / helper return that carries the parse error the size test was passed.
 		var checked func(v ssa.Value, seen map[ssa.Value]bool) (derives, ok bool)
 		checked = func(v ssa.Value, seen map[ssa.Value]bool) (bool, bool) {
 			if v == perr {
 				return true, false
 			}
+			if seen[v] {
+				return false, true
+			}
+			if h, idx := spdyHelperResult(v); h != nil {
+				seen[v] = true
+				hc, _ := v.(*ssa.Call)
+				if ex, isEx := v.(*ssa.Extract); isEx {
+					hc, _ = ex.Tuple.(*ssa.Call)
+				}
+				derives, ok := false, true
+				for _, r := range core.Returns(h) {
+					rv := core.RetVals(r)
+					if idx >= len(rv) {
+						continue
+					}
+					for j, p := range h.Params {
+						if j >= len(hc.Call.Args) || !mayBeParam(rv[idx], p, 0) {
+							continue
+						}
+						d, sub := checked(hc.Call.Args[j], seen)
+						if !d {
+							continue
+						}
+						derives = true
+						if !sub && !core.AllEdgesGuarded(r.Block(), sizeOK) {
+							ok = false
+						}
+					}
+				}
+				return derives, ok
+			}
 			phi, isPhi := v.(*ssa.Phi)
-			if !isPhi || seen[v] {
+			if !isPhi {
 				return false, true
 			}
 			seen[v] = true
@@ -724,9 +821,25 @@ func runC39(c *core.Ctx) {
 			}
 			return derives, ok
 		}
-		n := 0
+		n, nErr := 0, 0
 		for _, r := range core.Returns(fn) {
-			if !spdySuccessReturn(r) || !spdyReaches(fn, call, r) {
+			if !spdyReaches(fn, call, r) {
+				continue
+			}
+			if !spdySuccessReturn(r) {
+				// a return that hands the parse error on (it may be the stream-level
+				// *Error{code, streamId}: the connection goes on with the next frame)
+				rv := core.RetVals(r)
+				if len(rv) == 0 {
+					continue
+				}
+				d, sub := checked(rv[len(rv)-1], map[ssa.Value]bool{})
+				if !d {
+					continue
+				}
+				nErr++
+				c.Check("payload-size-check", fmt.Sprintf("%s:error-return#%d", short, nErr), r.Pos(), sub || core.AllEdgesGuarded(r.Block(), sizeOK),
+					"the error of parseHeaderValueBlock (possibly a stream-level *Error, after which the connection goes on) is returned on a path where f.headerReader.N == 0 (the compressed header block consumed exactly the announced payload) was not established: with left-over payload bytes the error must be the connection-level WrongCompressedPayloadSize, otherwise those bytes are parsed as the next frame")
 				continue
 			}
 			n++
